@@ -36,6 +36,14 @@ REQUIRED_COUNTERS = ["objects", "subsets", "members.checked", "owner.class", "ow
                      "novalue.calls", "novalue.default_valid", "novalue.default_invalid", "novalue.notpassed",
                      "class_novalue.calls", "pattern_overlap", "defaults.scribbled"] + [f"cell.{c}" for c in CELLS]
 
+ANCHORS = [
+    "statham.schema.elements.base:Element.__call__",
+    "statham.schema.elements.object:Object.__new__",
+    "statham.schema.elements.object:Object.__init__",
+    "statham.schema.elements.properties:Properties.__call__",
+    "statham.schema.property:_PropertyDict.required",
+]
+
 
 def plan(tier):
     if tier == "quick":
